@@ -331,3 +331,67 @@ func H_C15_pipeline() {
 	verifCover("pipelines compared")
 	verifAssert(got == want, "pipelines equivalent iff parameters, file output names, calls and return bindings agree (retain ignored)")
 }
+
+// H_C03_resolveDisable: compile-time resolution of a per-fork disabling
+// condition `disabled = split [e1 .. en]` (array) or `split {k: e ..}` (typed
+// map), each element arbitrarily a literal true, a literal false or a
+// reference: the condition is dropped only if no fork can ever be disabled
+// (all literal false), the call is pruned as always disabled only if every
+// fork is (all literal true), and otherwise the run-time check is kept.
+func H_C03_resolveDisable(n int, mapMode int) {
+	var elems []Exp
+	anyTrue, anyFalse, anyRef := false, false, false
+	for i := 0; i < n; i++ {
+		k := verifInt("kind")
+		verifAssume(verifAll(k >= 0, k <= 2))
+		switch verifConcretize(k) {
+		case 0:
+			elems = append(elems, &BoolExp{Value: true})
+			anyTrue = true
+		case 1:
+			elems = append(elems, &BoolExp{Value: false})
+			anyFalse = true
+		default:
+			elems = append(elems, &RefExp{Kind: KindCall, Id: "F", OutputId: "flag"})
+			anyRef = true
+		}
+	}
+	call := &CallStm{Id: "W", DecId: "W"}
+	var split *SplitExp
+	if mapMode != 0 {
+		m := &MapExp{Kind: KindMap, Value: map[string]Exp{}}
+		for i, e := range elems {
+			m.Value[string([]byte{'a' + byte(i)})] = e
+		}
+		split = &SplitExp{Call: call, Value: m, Source: m}
+	} else {
+		a := &ArrayExp{Value: elems}
+		split = &SplitExp{Call: call, Value: a, Source: a}
+	}
+	prior := []Exp{&RefExp{Kind: KindCall, Id: "P", OutputId: "off"}}
+	got, err := resolveDisableExp(split, prior)
+	verifCover("disable resolved")
+	verifAssert(err == nil, "boolean literals and references are legal disabling conditions")
+	if err != nil {
+		return
+	}
+	if n == 0 {
+		verifAssert(len(got) == 1 && got[0] == prior[0], "no forks: nothing to add")
+		return
+	}
+	switch {
+	case !anyTrue && !anyRef:
+		verifAssert(len(got) == 1 && got[0] == prior[0], "C03: a condition that is false for every fork is dropped")
+	case !anyFalse && !anyRef:
+		verifAssert(len(got) == 1 && got[0] != prior[0], "C03: a call disabled in every fork is marked always disabled")
+		if b, ok := got[0].(*BoolExp); ok {
+			verifAssert(b.Value, "C03: the always-disabled marker is the constant true")
+		}
+	default:
+		verifCover("run-time disable kept")
+		verifAssert(len(got) == 2 && got[0] == prior[0], "C03: a condition that may be true for some fork is kept for the run-time check")
+		if len(got) == 2 && n > 1 {
+			verifAssert(got[1] == Exp(split), "C03: the kept condition is the per-fork expression itself")
+		}
+	}
+}
